@@ -120,6 +120,55 @@ func (r *R) fn(rule, rel, recv, name string) *ssa.Function {
 	return f
 }
 
+// fnI resolves an anchor that is a small private helper: when the helper no
+// longer exists because its body was inlined into its callers, the functions
+// that called it on the reference tree stand in for it (the rule is judged in
+// each of them).
+func (r *R) fnI(rule, rel, recv, name string) []*ssa.Function {
+	if f := r.p.Func(rel, recv, name); f != nil && len(f.Blocks) > 0 {
+		return []*ssa.Function{f}
+	}
+	var out []*ssa.Function
+	for _, rf := range core.RefFuncs() {
+		cs, _ := core.RefCallees(rf)
+		for _, c := range cs {
+			pkg := rel[strings.LastIndex(rel, "/")+1:]
+			if pkg == "" {
+				pkg = "datatransfer"
+			}
+			if recv == "" && c != pkg+"."+name {
+				continue
+			}
+			if recv != "" && c != "(*"+pkg+"."+recv+")."+name && c != "("+pkg+"."+recv+")."+name {
+				continue
+			}
+			for _, f := range r.p.Prod {
+				if f.String() == rf && len(f.Blocks) > 0 {
+					out = append(out, f)
+				}
+			}
+		}
+	}
+	if len(out) == 0 {
+		r.c.Stuck(rule, "anchor:"+fnKey(rel, recv, name), "", "anchor function no longer resolves (renamed, moved or deleted); the rule cannot be evaluated")
+	}
+	return out
+}
+
+// oneOf is one() for the first of several alternative callees that is called
+// in fn.
+func (r *R) oneOf(rule string, fn *ssa.Function, callees ...string) ssa.CallInstruction {
+	if fn == nil {
+		return nil
+	}
+	for _, c := range callees[:len(callees)-1] {
+		if len(r.sites(fn, false, c)) > 0 {
+			return r.one(rule, fn, c)
+		}
+	}
+	return r.one(rule, fn, callees[len(callees)-1])
+}
+
 func fnKey(rel, recv, name string) string {
 	if recv != "" {
 		return rel + "." + recv + "." + name
@@ -651,4 +700,70 @@ func (r *R) inlinedAway(n, callee string, allowed map[string]bool) string {
 		}
 	}
 	return ""
+}
+
+// truth evaluates a boolean descriptor on a path: a value the path has
+// branched on is the constant that branch established.
+func truth(pt *core.Path, desc string) string {
+	if pt.Has("+" + desc) {
+		return "true"
+	}
+	if pt.Has("-" + desc) {
+		return "false"
+	}
+	return desc
+}
+
+// guardedOnPaths is guardedCalls decided per path: on every enumerated path of
+// fn, each call to callee must come after the atoms need(path, event) returns
+// (rendered with the path's phi resolution). One obligation per call site.
+func (r *R) guardedOnPaths(rule string, fn *ssa.Function, paths []*core.Path, callee string, min int, need func(pt *core.Path, ev core.Ev) []string) {
+	if fn == nil || paths == nil {
+		return
+	}
+	type res struct {
+		site   ssa.Instruction
+		detail string
+		n      int
+	}
+	by := map[string]*res{}
+	var keys []string
+	for _, pt := range paths {
+		for _, ev := range pt.Evs {
+			if ev.Kind != "call" || r.p.CalleeName(ev.C) != callee {
+				continue
+			}
+			ci, ok := ev.Instr.(ssa.CallInstruction)
+			if !ok {
+				continue
+			}
+			k := r.siteKey(ci)
+			x := by[k]
+			if x == nil {
+				x = &res{site: ev.Instr}
+				by[k] = x
+				keys = append(keys, k)
+			}
+			x.n++
+			var missing []string
+			for _, a := range need(pt, ev) {
+				if !pt.HasBefore(ev.Instr, a) {
+					missing = append(missing, a)
+				}
+			}
+			if len(missing) > 0 && x.detail == "" {
+				x.detail = fmt.Sprintf("reached without {%s} on %s", strings.Join(missing, ", "), pt.Describe())
+			}
+		}
+	}
+	if len(keys) < min {
+		r.c.Stuck(rule, core.ShortFn(fn)+"→"+callee, r.p.Pos(fn.Pos()),
+			fmt.Sprintf("expected at least %d call(s) to %s on the paths of %s, found %d: the anchor moved; rule cannot be evaluated", min, callee, core.ShortFn(fn), len(keys)))
+		return
+	}
+	sort.Strings(keys)
+	for _, k := range keys {
+		x := by[k]
+		r.c.Check(x.detail == "", rule, k, r.p.InstrPos(x.site), fmt.Sprintf("guarded on all %d paths reaching it", x.n), x.detail)
+	}
 }
